@@ -15,3 +15,8 @@ func constObjInt(o types.Object) int64 {
 	}
 	return -999
 }
+
+func isIntType(t types.Type) bool {
+	b, ok := t.Underlying().(*types.Basic)
+	return ok && b.Info()&types.IsInteger != 0
+}
